@@ -22,6 +22,8 @@ pub struct Camellia128; impl CfbCipher for Camellia128 { open spec fn cid() -> u
 pub struct Camellia192; impl CfbCipher for Camellia192 { open spec fn cid() -> u8 { 12 } }
 pub struct Camellia256; impl CfbCipher for Camellia256 { open spec fn cid() -> u8 { 13 } }
 
+/// the key / IV lengths cipher `cid` accepts (not modelled further)
+pub uninterp spec fn cfb_params_ok(cid: u8, key_len: nat, iv_len: nat) -> bool;
 pub uninterp spec fn cfbr_enc(cid: u8, key: Seq<u8>, iv: Seq<u8>, pt: Seq<u8>) -> Seq<u8>;
 pub uninterp spec fn cfbr_dec(cid: u8, key: Seq<u8>, iv: Seq<u8>, ct: Seq<u8>) -> Seq<u8>;
 #[verifier::external_body]
@@ -49,7 +51,8 @@ impl<C: CfbCipher> Decryptor<C> {
     pub uninterp spec fn iv(&self) -> Seq<u8>;
     #[verifier::external_body]
     pub fn new_from_slices(key: &[u8], iv: &[u8]) -> (r: core::result::Result<Self, InvalidLength>)
-        ensures r matches Ok(d) ==> d.key() == key@ && d.iv() == iv@
+        ensures r matches Ok(d) ==> d.key() == key@ && d.iv() == iv@,
+            (r is Ok) == cfb_params_ok(C::cid(), key@.len(), iv@.len())
     { unimplemented!() }
     #[verifier::external_body]
     pub fn decrypt(self, buf: &mut [u8])
@@ -64,7 +67,8 @@ impl<C: CfbCipher> Encryptor<C> {
     pub uninterp spec fn iv(&self) -> Seq<u8>;
     #[verifier::external_body]
     pub fn new_from_slices(key: &[u8], iv: &[u8]) -> (r: core::result::Result<Self, InvalidLength>)
-        ensures r matches Ok(d) ==> d.key() == key@ && d.iv() == iv@
+        ensures r matches Ok(d) ==> d.key() == key@ && d.iv() == iv@,
+            (r is Ok) == cfb_params_ok(C::cid(), key@.len(), iv@.len())
     { unimplemented!() }
     #[verifier::external_body]
     pub fn encrypt(self, buf: &mut [u8])
@@ -242,7 +246,8 @@ pub mod lock_bytes_ax {
     pub broadcast proof fn axiom_bytesmut_of(s: Seq<u8>) ensures (#[trigger] bytesmut_of(s))@ == s {}
 }
 pub use lock_bytes_ax::*;
-broadcast use {lock_bytes_ax::axiom_bytes_of, lock_bytes_ax::axiom_bytesmut_of};
+// (no module-level `broadcast use`: the axioms mention Bytes::view of the root module, which Verus reports as a cycle;
+//  proofs call axiom_bytes_of / axiom_bytesmut_of explicitly)
 impl vstd::std_specs::convert::FromSpecImpl<Bytes> for BytesMut {
     open spec fn obeys_from_spec() -> bool { true }
     open spec fn from_spec(b: Bytes) -> BytesMut { bytesmut_of(b@) }
@@ -271,6 +276,47 @@ impl core::ops::Deref for BytesMut {
     type Target = [u8];
     #[verifier::external_body]
     fn deref(&self) -> (r: &[u8]) ensures r@ == self@ { unimplemented!() }
+}
+impl core::ops::Deref for Bytes {
+    type Target = [u8];
+    #[verifier::external_body]
+    fn deref(&self) -> (r: &[u8]) ensures r@ == self@ { unimplemented!() }
+}
+impl io::Write for Vec<u8> {
+    open spec fn out(&self) -> Seq<u8> { self@ }
+    #[verifier::external_body]
+    fn write(&mut self, buf: &[u8]) -> (r: io::Result<usize>) { unimplemented!() }
+    #[verifier::external_body]
+    fn write_all(&mut self, buf: &[u8]) -> (r: io::Result<()>) { unimplemented!() }
+    #[verifier::external_body]
+    fn flush(&mut self) -> (r: io::Result<()>) { unimplemented!() }
+}
+//@trusted T2 snafu context selector InvalidInputSnafu.build() is an opaque crate::errors::Error value
+pub struct InvalidInputSnafu;
+impl InvalidInputSnafu {
+    #[verifier::external_body]
+    pub fn build(self) -> (e: errors::Error) { unimplemented!() }
+}
+//@trusted T4 BufReadParsing::{read_arr::<C>, has_remaining} (src/parsing_reader.rs; Ok side proved in U71): Ok means the stream held enough bytes, the value is exactly the next C bytes and exactly those are consumed / has_remaining reports whether bytes remain and consumes nothing.  BEYOND U71 (needed for the round-trip direction only): they fail only if fewer than C octets remain, resp. only if the underlying reader fails
+pub trait BufReadParsing: io::BufRead + Sized {
+    fn has_remaining(&mut self) -> (r: io::Result<bool>)
+        ensures match r {
+            Ok(v) => v == ((*old(self)).rest().len() > 0) && (*final(self)).rest() == (*old(self)).rest(),
+            Err(_) => reader_may_fail::<Self>() };
+    fn read_arr<const C: usize>(&mut self) -> (r: io::Result<[u8; C]>)
+        ensures match r {
+            Ok(a) => (*old(self)).rest().len() >= C && a@ == (*old(self)).rest().subrange(0, C as int) && (*final(self)).rest() == (*old(self)).rest().skip(C as int),
+            Err(e) => (*old(self)).rest().len() < C || reader_may_fail::<Self>() };
+}
+impl<B: io::BufRead> BufReadParsing for B {
+    #[verifier::external_body]
+    fn has_remaining(&mut self) -> (r: io::Result<bool>) { unimplemented!() }
+    #[verifier::external_body]
+    fn read_arr<const C: usize>(&mut self) -> (r: io::Result<[u8; C]>) { unimplemented!() }
+}
+//@trusted T4 crate::ser::Serialize of the PUBLIC key: wire() names the octets to_writer appends (public key packet fields starting with the version octet)
+pub trait Serialize {
+    spec fn wire(&self) -> Seq<u8>;
 }
 impl core::ops::DerefMut for BytesMut {
     #[verifier::external_body]
@@ -359,9 +405,6 @@ pub fn slice_ne_arr20(a: &[u8], b: &[u8; 20]) -> (r: bool)
     proof { assert(a@ =~= b@); }
     false
 }
-pub assume_specification<T>[<[T]>::split_at](s: &[T], mid: usize) -> (r: (&[T], &[T]))
-    requires mid <= s@.len()
-    ensures r.0@ == s@.subrange(0, mid as int), r.1@ == s@.skip(mid as int);
 pub assume_specification<T: Clone>[<[T]>::to_vec](s: &[T]) -> (r: Vec<T>)
     ensures r@.len() == s@.len(), forall|i: int| 0 <= i < s@.len() ==> cloned::<T>(s@[i], #[trigger] r@[i]);
 
